@@ -26,6 +26,8 @@ def solve(A, b, Delta):
     # if we get here, the solution must be on the tr boundary 
     
     sigScale = np.mean( np.abs(sig) )
+    if sigScale == 0.0: # A is the zero matrix: the model is linear
+        return -Delta*b/norm(b) if norm(b) > 0 else 0.0*b
     eps = 1e-12 * sigScale
     minSig = sig[0]
 
